@@ -57,6 +57,7 @@ OPS = {'AddField': 5, 'DeleteField': 4, 'RenameField': 4, 'ChangeField': 5,
 
 def gen_scenario(rng, dense=None, ops=None, one_model=False):
     cfg = gen.swarm_config(rng)
+    chain = ops is None and dense is None and rng.random() < 0.2
     if dense is None:
         dense = rng.random() < 0.25
     cfg['field_names'] = ['a', 'b', 'c'] if dense else ['a', 'b', 'c', 'd']
@@ -71,6 +72,23 @@ def gen_scenario(rng, dense=None, ops=None, one_model=False):
     if rng.random() < 0.6:
         cfg['ops']['RenameModel'] = 0
     cfg['max_rows'] = rng.choice([0, 2, 3])
+    if chain:
+        # same-field chains: consecutive add / change (null, initial,
+        # max_length) mutations of very few names, so that the optimiser
+        # collapses several mutations into one
+        cfg['field_names'] = ['a', 'b']
+        cfg['max_models'] = 1
+        cfg['max_fields'] = 1
+        cfg['relations'] = False
+        cfg['plain_fields'] = True
+        cfg['type_changes'] = False
+        cfg['change_attrs'] = ['null', 'max_length', 'decimal']
+        cfg['kinds'] = ['Char', 'Integer', 'Boolean', 'Text']
+        cfg['ops'] = {'AddField': 3, 'ChangeField': 8, 'DeleteField': 0,
+                      'RenameField': 0, 'ChangeMeta': 0, 'RenameModel': 0,
+                      'DeleteModel': 0, 'NewModel': 0, 'SQLMutation': 0}
+        cfg['meta'] = []
+        cfg['max_rows'] = rng.choice([2, 3])
     if not cfg.get('clean_rebuild') and rng.random() < 0.75:
         # rebuilds happen a different number of times on the two sides, so
         # what a rebuild loses (recorded C01 finding) would show up as a
@@ -197,8 +215,27 @@ def features(scn):
     merged = c02._merged_initials({'project': {'apps': {'va': {'steps': [
         {'evos': [{'mutations': [m for m in scn['muts']
                                  if m['op'] != 'NewModel']}]}]}}}})
+    # a RenameField is "entangled" when another mutation of the sequence
+    # names its old or its new field name on the same model
+    entangled = False
+    muts = scn['muts']
+    for i, m in enumerate(muts):
+        if m['op'] != 'RenameField':
+            continue
+        names = {m['old'], m['new']}
+        for j, o in enumerate(muts):
+            if i == j or o.get('model') != m.get('model'):
+                continue
+            onames = {o.get('name'), o.get('old'), o.get('new'),
+                      (o.get('field') or {}).get('name')}
+            if o['op'] == 'ChangeMeta':
+                onames |= set(spec.fields_in_meta(
+                    {'meta': {o['prop']: o['value']}}))
+            if names & onames:
+                entangled = True
     return {
         'merged_initials': merged,
+        'rename_entangled': entangled,
         'has_rename_field': 'RenameField' in ops,
         'has_rename_model': 'RenameModel' in ops,
         'name_reuse': reuse,
